@@ -352,7 +352,10 @@ def check_receivers(eng, run):
             run.finding("C15.recv", fn, _stmt_at(fn, tr[-1]) if tr else fn.node, f"{escaping[0].split('.')[-1]} can leave the request receiver instead of being returned as a ThrowAction: a parse error / transport error is raised in the server task rather than thrown into the handler at its position", tr)
         # break -> StopAsyncIteration: the try's else raises it
         outer = next((t for t in fn.node.body if isinstance(t, ast.Try)), None)
-        ok_stop = outer is not None and any(isinstance(s, ast.Raise) and "StopAsyncIteration" in ast.unparse(s) for s in outer.orelse) and \
+        after = fn.node.body[fn.node.body.index(outer) + 1:] if outer is not None else []
+        handlers_leave = outer is not None and all(h.body and isinstance(h.body[-1], (ast.Return, ast.Raise)) for h in outer.handlers)
+        ok_stop = outer is not None and (any(isinstance(s, ast.Raise) and "StopAsyncIteration" in ast.unparse(s) for s in outer.orelse) or
+                                         (handlers_leave and any(isinstance(s, ast.Raise) and "StopAsyncIteration" in ast.unparse(s) for s in after))) and \
             any(isinstance(h.type, ast.Name) and h.type.id == "BaseException" and isinstance(h.body[-1], ast.Return) and "ThrowAction" in " ".join(ast.unparse(x) for x in h.body) for h in outer.handlers)
         if not ok_stop:
             run.finding("C15.recv", fn, outer or fn.node, "disconnect no longer ends the request stream with StopAsyncIteration / errors are no longer returned as ThrowAction")
